@@ -64,7 +64,9 @@ class TokenTree:
             msg = "Attempted to create token without a key!"
             raise RuntimeError(msg)
         previous_hash = self.genesis_hash if not after else after.get_hash()
-        return self._append(Token(previous_hash, content=content, private_key=self.private_key))
+        token = Token(previous_hash, content=content, private_key=self.private_key)
+        self._append_chain_reaction_token(token)  # Received tokens may have been waiting for this one.
+        return token
 
     def add_by_hash(self, content_hash: bytes, after: Token | None = None) -> Token:
         """
@@ -78,7 +80,9 @@ class TokenTree:
             msg = "Attempted to create token without a key!"
             raise RuntimeError(msg)
         previous_hash = self.genesis_hash if not after else after.get_hash()
-        return self._append(Token(previous_hash, content_hash=content_hash, private_key=self.private_key))
+        token = Token(previous_hash, content_hash=content_hash, private_key=self.private_key)
+        self._append_chain_reaction_token(token)  # Received tokens may have been waiting for this one.
+        return token
 
     def gather_token(self, token: Token) -> Token | None:
         """
